@@ -1369,8 +1369,11 @@ package process
 //@ contract fwdhandleControlMessageNP
 //@   callsite[C04] C04.npfwdTakeOver (*process.Process).transitionLoopNP#1: arg0 == process && process.Providers == cm.Providers && process.Body == old(process.Body)
 // fwd self x, non-polarised: the forwarder hands its providers to x's provider over x's control channel and ends
+//@ ghost lastSentCtl Arr[Ref]ControlMessage
 //@ contract (*ForwardForm).TransitionNP
+//@   requires[C04] len(process.Providers) >= 1
 //@   callsite[C04] C04.npfwdCtl process.handleControlMessageNP#1: arg0 == process
+//@   callsite[C04] C04.npfwdRequest (*process.ForwardForm).TransitionNP$1#1: f.to_c.IsSelf && lastSentCtl[f.from_c.ControlChannel].Action == FWD_ACTION && lastSentCtl[f.from_c.ControlChannel].Providers == process.Providers
 //@ contract (*ForwardForm).TransitionNP$1
 //@   callsite[C04] C04.npfwdEnds (*process.Process).terminateForward#1: arg0 == process
 
